@@ -246,8 +246,10 @@ type vfRefNS struct {
 	k2 bool // a '^'-prefixed declaration whose innermost enclosing scope is such an object
 }
 
-// notePath records the K1 predicate for a (declaration, scope target or call target) path.
-func (r *vfRefNS) notePath(cur []string, name string) {
+// notePath records the K1 predicate: a *lookup* that has to descend through a
+// scoped object. For a Scope target or a call the whole path is looked up; for
+// a declaration only its prefix is (the last segment is the new name).
+func (r *vfRefNS) notePath(cur []string, name string, isDecl bool) {
 	bare := strings.TrimLeft(name, "\\^")
 	if !strings.Contains(bare, ".") {
 		return
@@ -257,7 +259,12 @@ func (r *vfRefNS) notePath(cur []string, name string) {
 		return
 	}
 	nseg := len(strings.Split(bare, "."))
-	for i := len(segs) - nseg + 1; i < len(segs); i++ { // proper prefixes ending inside the written path
+	end := len(segs) // exclusive bound of the looked-up path
+	if isDecl {
+		end--
+	}
+	// non-final segments of the looked-up path that were written in the name
+	for i := len(segs) - nseg + 1; i < end; i++ {
 		if o, ok := r.objs[vfJoinPath(segs[:i])]; ok && vfScopedKinds[o.kind] {
 			r.k1 = true
 		}
@@ -325,7 +332,7 @@ func (r *vfRefNS) declare(cur []string, ns []*vfN, pass int, curMethod *vfRefObj
 		switch {
 		case n.K == "Scope":
 			if pass == 2 {
-				r.notePath(cur, n.Name)
+				r.notePath(cur, n.Name, false)
 				r.noteCaret(cur, n.Name)
 			}
 			p, ok := r.lookup(cur, n.Name)
@@ -342,7 +349,7 @@ func (r *vfRefNS) declare(cur []string, ns []*vfN, pass int, curMethod *vfRefObj
 			r.declare(segs, n.C, pass, nil)
 		case vfNamedKinds[n.K]:
 			if pass == 2 {
-				r.notePath(cur, n.Name)
+				r.notePath(cur, n.Name, true)
 				r.noteCaret(cur, n.Name)
 			}
 			segs, ok := r.resolveDecl(cur, n.Name)
@@ -362,8 +369,10 @@ func (r *vfRefNS) declare(cur []string, ns []*vfN, pass int, curMethod *vfRefObj
 				if _, ok := r.objs[parent]; !ok && len(segs) > 1 {
 					continue
 				} // parent not yet known; retry next sweep
-				if _, dup := r.objs[p]; !dup {
+				if prev, dup := r.objs[p]; !dup {
 					r.objs[p] = &vfRefObj{kind: n.K, node: n}
+				} else if prev.node != n {
+					r.err = "duplicate declaration of " + p // AE_ALREADY_EXISTS: not a well-formed program
 				}
 			}
 			if vfScopedKinds[n.K] {
@@ -401,7 +410,7 @@ func (r *vfRefNS) declare(cur []string, ns []*vfN, pass int, curMethod *vfRefObj
 }
 func (r *vfRefNS) collectCalls(cur []string, n *vfN, m *vfRefObj) {
 	if n.K == "Call" {
-		r.notePath(cur, n.Name)
+		r.notePath(cur, n.Name, false)
 		r.noteCaret(cur, n.Name)
 		p, ok := r.lookup(cur, n.Name)
 		if ok && r.objs[p].kind == "Method" {
